@@ -12,6 +12,7 @@
 # See the License for the specific language governing permissions and
 # limitations under the License.
 
+from itertools import zip_longest
 from typing import Any, List
 
 from sympy.logic import And, Or, false, true
@@ -56,7 +57,8 @@ class Qchar(str, Qtype):
     @staticmethod
     def eq(tleft: TExp, tcomp: TExp) -> TExp:
         ex = true
-        for x in zip(tleft[1], tcomp[1]):
+        # The narrower operand (an integer constant) is zero extended
+        for x in zip_longest(tleft[1], tcomp[1], fillvalue=False):
             ex = And(ex, _eq(x[0], x[1]))
 
         return (bool, ex)
@@ -64,7 +66,7 @@ class Qchar(str, Qtype):
     @staticmethod
     def neq(tleft: TExp, tcomp: TExp) -> TExp:
         ex = false
-        for x in zip(tleft[1], tcomp[1]):
+        for x in zip_longest(tleft[1], tcomp[1], fillvalue=False):
             ex = Or(ex, _neq(x[0], x[1]))
 
         return (bool, ex)
